@@ -61,7 +61,10 @@ Init ==
      /\ case = [kind |-> "kernel",
                 inp |-> [pts |-> IF (Hash(s, k) \div 36) % 2 = 0 THEN s ELSE Reverse(s),
                          meth |-> MethFor(mi, sp.neg), k |-> k, rhs |-> Rhs(n),
-                         pd |-> IF (Hash(s, k) \div 72) % 3 = 0 THEN 2 ELSE 1]]
+                         pd |-> IF (Hash(s, k) \div 72) % 3 = 0 THEN 2 ELSE 1,
+                         \* Gaussian kernels are shift-invariant: three quarters of them get their records shifted by a
+                         \* large exactly representable offset (code 1..3, see the harness); the relation is unchanged
+                         off |-> IF Methods[mi].name = "gauss" THEN (Hash(s, k) \div 11) % 4 ELSE 0]]
 
 Next == UNCHANGED case
 Emit == PrintT("CASE " \o ToJson(case))
